@@ -47,6 +47,21 @@ template <> struct Tok<TKey> {
 template <typename K> struct Arm { static void set(bool) {} static bool can() { return false; } };
 template <> struct Arm<TKey> { static void set(bool b) { TKey::armed = b; } static bool can() { return true; } };
 
+// parameter payload whose k-th copy (construction or assignment) from now on throws (0 = never)
+struct ThrowVal {
+  int v;
+  static int countdown;
+  static void tick() { if (countdown > 0 && --countdown == 0) throw std::runtime_error("value copy"); }
+  ThrowVal() : v(0) {}
+  explicit ThrowVal(int x) : v(x) {}
+  ThrowVal(const ThrowVal &o) : v(o.v) { tick(); }
+  ThrowVal(ThrowVal &&o) noexcept : v(o.v) {}
+  ThrowVal &operator=(const ThrowVal &o) { tick(); v = o.v; return *this; }
+  ThrowVal &operator=(ThrowVal &&o) noexcept { v = o.v; return *this; }
+  bool operator==(const ThrowVal &o) const { return v == o.v; }
+};
+int ThrowVal::countdown = 0;
+
 struct PO : public utility::ParameterizedObject {
   std::string dump()
   {
@@ -61,6 +76,7 @@ struct PO : public utility::ParameterizedObject {
       else if (prm.data.is<long>()) { t = "long"; v = std::to_string(prm.data.get<long>()); }
       else if (prm.data.is<math::vec3f>()) { t = "vec3f"; v = std::to_string((long long)prm.data.get<math::vec3f>().y); }
       else if (prm.data.is<KeyRec>()) { t = "key"; v = std::to_string(prm.data.get<KeyRec>().note); }
+      else if (prm.data.is<ThrowVal>()) { t = "thr"; v = std::to_string(prm.data.get<ThrowVal>().v); }
       if (!out.empty()) out += ",";
       out += prm.name + ":" + t + ":" + v + ":" + (prm.query ? "1" : "0");
     }
@@ -78,6 +94,7 @@ static void pset(PO &po, const std::string &n, const std::string &t, const std::
   else if (t == "long") po.setParam<long>(n, std::stol(v));
   else if (t == "vec3f") po.setParam<math::vec3f>(n, math::vec3f(0.f, (float)std::stoi(v), 1.f));
   else if (t == "key") po.setParam<KeyRec>(n, mkKey(std::stoi(v)));
+  else if (t == "thr") po.setParam<ThrowVal>(n, ThrowVal(std::stoi(v)));
   else throw std::runtime_error("bad type");
 }
 static std::string pget(PO &po, const std::string &n, const std::string &t, const std::string &d)
@@ -89,6 +106,7 @@ static std::string pget(PO &po, const std::string &n, const std::string &t, cons
   if (t == "long") return std::to_string(po.getParam<long>(n, std::stol(d)));
   if (t == "vec3f") return std::to_string((long long)po.getParam<math::vec3f>(n, math::vec3f(0.f, (float)std::stoi(d), 1.f)).y);
   if (t == "key") return std::to_string(po.getParam<KeyRec>(n, mkKey(std::stoi(d))).note);
+  if (t == "thr") return std::to_string(po.getParam<ThrowVal>(n, ThrowVal(std::stoi(d))).v);
   throw std::runtime_error("bad type");
 }
 
@@ -153,6 +171,27 @@ int runTyped()
         }
         if (op == "po_new") { po.reset(new PO); return "ok"; }
         if (op == "pset") { pset(*po, w[1], w[2], w[3]); return "ok"; }
+        if (op == "pset_throw") {
+          // overwrite of an existing parameter while the k-th copy of the value throws, for k = 1, 2, ... until the
+          // write goes through: every failed attempt must leave all parameters (value, type, query flag, order) as
+          // they were; the final attempt stores the value. For a name that is absent only the plain write is done.
+          ThrowVal val(std::stoi(w[2]));
+          if (po->hasParam(w[1])) {
+            for (int k = 1; k <= 16; k++) {
+              std::string before = po->dump();
+              bool threw = false;
+              ThrowVal::countdown = k;
+              try { po->setParam<ThrowVal>(w[1], val); } catch (const std::runtime_error &) { threw = true; }
+              ThrowVal::countdown = 0;
+              if (!threw) return "ok";
+              std::string after = po->dump();
+              if (after != before) return "changed by the write that threw at copy " + std::to_string(k) + ": " + after;
+            }
+            return "still throwing";
+          }
+          po->setParam<ThrowVal>(w[1], val);
+          return "ok";
+        }
         if (op == "pget") return pget(*po, w[1], w[2], w[3]);
         if (op == "phas") return vh::bit(po->hasParam(w[1]));
         if (op == "prem") { po->removeParam(w[1]); return "ok"; }
